@@ -68,13 +68,17 @@ type outcome struct {
 	entry *base.SentinelEntry
 }
 
+// entryOpts: options every api.Entry of the running request carries besides the batch count (resource type, traffic type):
+// they must not influence the isolation decision
+var entryOpts []api.EntryOption
+
 func entry(name string, b uint32) (o outcome) {
 	defer func() {
 		if e := recover(); e != nil {
 			o = outcome{ok: false, bt: "panic", val: limbs(0)}
 		}
 	}()
-	e, berr := api.Entry(name, api.WithBatchCount(b))
+	e, berr := api.Entry(name, append([]api.EntryOption{api.WithBatchCount(b)}, entryOpts...)...)
 	if berr == nil {
 		return outcome{ok: true, entry: e}
 	}
@@ -163,7 +167,15 @@ func main() {
 			tr.Emit(hx.M{"op": "new", "tr": cur, "nres": hx.Int(s, "nres"), "rules": out})
 		case "req":
 			res, b, id := hx.Int(s, "res"), u32(s, "b"), hx.Int(s, "id")
+			entryOpts = nil
+			if _, ok := s["rt"]; ok {
+				entryOpts = append(entryOpts, api.WithResourceType(base.ResourceType(hx.Int(s, "rt"))))
+			}
+			if s["inb"] == true {
+				entryOpts = append(entryOpts, api.WithTrafficType(base.Inbound))
+			}
 			o := entry(name(res), b)
+			entryOpts = nil
 			rec := hx.M{"op": "req", "res": res, "b": limbs(b), "id": id, "ok": o.ok}
 			if o.ok {
 				open[id], resOf[id] = o.entry, res
